@@ -83,7 +83,36 @@ def detection_inputs(draw, min_vocab=2, max_vocab=5, sum_le_one=True, same_event
                 anns.append({"geometry": draw(geometry(allow_none=allow_geometryless)), "tags": true_tags()})
             for _ in range(draw(st.integers(0, 4))):
                 preds.append({"geometry": draw(geometry(allow_none=allow_geometryless)), "tags": pred_tags([t for a in anns for t in a["tags"]]), "conf": draw(st.integers(0, 20)) / 20})
+        # two hypotheses about ONE sound event (predictions wrapping the same SoundEvent object), two annotators of one event
+        if not same_events:
+            for lst, key in ((preds, "se_of_pred"), (anns, "se_of_ann")):
+                if len(lst) >= 2 and draw(st.integers(0, 5)) == 0:
+                    j = draw(st.integers(1, len(lst) - 1))
+                    i = draw(st.integers(0, j - 1))
+                    if key not in lst[i]:
+                        lst[j][key] = i
+                        lst[j]["geometry"] = lst[i]["geometry"]
+        # a prediction that carries the uuid of "its" annotation (uuid reused to track the correspondence)
+        for pi, p_ in enumerate(preds):
+            k = p_.get("same_as", pi)
+            if k < len(anns) and draw(st.integers(0, 7)) == 0:
+                p_["uuid_like_ann"] = k
         c = {"side": s, "anns": anns, "preds": preds, "separate_clip": draw(st.sampled_from([None, None, "equal_copy", "other_content"]))}
+        if same_events and clips and anns and draw(st.integers(0, 3)) == 0:
+            # overlapping clips: an event of an earlier clip is annotated (and predicted) again in this one, by other objects
+            cj = draw(st.integers(0, len(clips) - 1))
+            if clips[cj]["anns"]:
+                aj = draw(st.integers(0, len(clips[cj]["anns"]) - 1))
+                ai = draw(st.integers(0, len(anns) - 1))
+                root = clips[cj]["anns"][aj].get("se_from", [cj, aj])
+                taken = {tuple(a_.get("se_from", ())) for a_ in anns}
+                if tuple(root) not in taken:
+                    anns[ai]["se_from"] = list(root)
+                    anns[ai]["geometry"] = preds[ai]["geometry"] = clips[root[0]]["anns"][root[1]]["geometry"]
+        if not clip_tags and draw(st.integers(0, 2)) == 0:
+            # clip-level tags on inputs of the sound-event tasks: they are no part of those tasks and must not matter
+            c["noise_true_tags"] = true_tags()
+            c["noise_pred_tags"] = pred_tags()
         if clip_tags:
             if multilabel:
                 c["true_tags"] = draw(st.lists(st.one_of(st.integers(0, nv - 1), st.sampled_from([-1])), min_size=0, max_size=nv, unique=True))
@@ -137,6 +166,7 @@ def build(spec, order=None):
     cps, cas = [], []
     index = {"clips": {}, "ann": {}, "pred": {}}
     order = list(order) if order is not None else list(range(len(spec["clips"])))
+    shared_ses = {}
     for ci in order:
         c = spec["clips"][ci]
         clip = data.Clip(uuid=_uid(1000 + ci), recording=rec, start_time=0.0, end_time=30.0)
@@ -144,22 +174,33 @@ def build(spec, order=None):
         ses = {}
         anns = []
         for ai, a in enumerate(c["anns"]):
-            se = data.SoundEvent(uuid=_uid(100000 + ci * 1000 + ai), recording=rec, geometry=data.geometry_validate(a["geometry"], mode="dict") if a["geometry"] else None)
+            if "se_of_ann" in a:
+                se = ses[a["se_of_ann"]]
+            else:
+                rc, ra = a.get("se_from", [ci, ai])
+                if (rc, ra) not in shared_ses:
+                    shared_ses[(rc, ra)] = data.SoundEvent(uuid=_uid(100000 + rc * 1000 + ra), recording=rec, geometry=data.geometry_validate(a["geometry"], mode="dict") if a["geometry"] else None)
+                se = shared_ses[(rc, ra)]
             ses[ai] = se
             ann = data.SoundEventAnnotation(uuid=_uid(200000 + ci * 1000 + ai), sound_event=se, tags=[tag_of(i) for i in a["tags"]], created_on="2020-01-01T00:00:00")
             index["ann"][str(ann.uuid)] = (ci, ai)
             anns.append(ann)
         preds = []
+        pses = {}
         for pi, p in enumerate(c["preds"]):
             if "same_as" in p:
                 se = ses[p["same_as"]]
+            elif "se_of_pred" in p:
+                se = pses[p["se_of_pred"]]
             else:
                 se = data.SoundEvent(uuid=_uid(300000 + ci * 1000 + pi), recording=rec, geometry=data.geometry_validate(p["geometry"], mode="dict") if p["geometry"] else None)
-            pred = data.SoundEventPrediction(uuid=_uid(400000 + ci * 1000 + pi), sound_event=se, score=p.get("conf", 0.5), tags=[data.PredictedTag(tag=tag_of(i), score=s) for i, s in p["tags"]])
+            pses[pi] = se
+            puid = _uid(200000 + ci * 1000 + p["uuid_like_ann"]) if "uuid_like_ann" in p else _uid(400000 + ci * 1000 + pi)
+            pred = data.SoundEventPrediction(uuid=puid, sound_event=se, score=p.get("conf", 0.5), tags=[data.PredictedTag(tag=tag_of(i), score=s) for i, s in p["tags"]])
             index["pred"][str(pred.uuid)] = (ci, pi)
             preds.append(pred)
         if c["side"] in ("both", "ann"):
-            cas.append(data.ClipAnnotation(uuid=_uid(500000 + ci), clip=clip, sound_events=anns, tags=[tag_of(i) for i in c.get("true_tags", [])], created_on="2020-01-01T00:00:00"))
+            cas.append(data.ClipAnnotation(uuid=_uid(500000 + ci), clip=clip, sound_events=anns, tags=[tag_of(i) for i in c.get("true_tags", c.get("noise_true_tags", []))], created_on="2020-01-01T00:00:00"))
         pclip = clip
         if c.get("separate_clip") == "equal_copy":
             pclip = data.Clip(uuid=clip.uuid, recording=rec, start_time=0.0, end_time=30.0)
@@ -168,7 +209,7 @@ def build(spec, order=None):
             rec2 = rec.model_copy(update={"tags": [tag(["site", "x"])], "path": "other/dir/r.wav"})
             pclip = data.Clip(uuid=clip.uuid, recording=rec2, start_time=0.0, end_time=30.0, features=[data.Feature(term=data.term_from_key("snr"), value=3.0)])
         if c["side"] in ("both", "pred"):
-            cps.append(data.ClipPrediction(uuid=_uid(600000 + ci), clip=pclip, sound_events=preds, tags=[data.PredictedTag(tag=tag_of(i), score=s) for i, s in c.get("pred_tags", [])]))
+            cps.append(data.ClipPrediction(uuid=_uid(600000 + ci), clip=pclip, sound_events=preds, tags=[data.PredictedTag(tag=tag_of(i), score=s) for i, s in c.get("pred_tags", c.get("noise_pred_tags", []))]))
     return cps, cas, vocab, index
 
 
